@@ -680,10 +680,13 @@ func (d *DFA) searchEarliestMatch(cache *DFACache, haystack []byte, startPos int
 
 		// State acceleration: if current state is accelerable, use SIMD to skip ahead
 		if exitBytes := currentState.AccelExitBytes(); len(exitBytes) > 0 {
+			// All bytes before the next exit byte loop back to this state.
 			nextPos := d.accelerate(haystack, pos, exitBytes)
 			if nextPos == -1 {
-				// No exit byte found - can't match
-				return false
+				// No exit byte: stays in this state up to the end of input,
+				// where the state may still match (EOI check below).
+				pos = endPos
+				break
 			}
 			// Skip to the exit byte position
 			pos = nextPos
@@ -1166,11 +1169,20 @@ func (d *DFA) searchAt(cache *DFACache, haystack []byte, startPos int) int { //n
 		d.tryDetectAccelerationWithCache(currentState, cache)
 
 		if exitBytes := currentState.AccelExitBytes(); len(exitBytes) > 0 {
+			// All bytes before the next exit byte loop back to this state.
 			nextPos := d.accelerate(haystack, pos, exitBytes)
 			if nextPos == -1 {
-				return lastMatch
+				nextPos = end // stays in this state up to the end of input
+			}
+			if nextPos > pos && cache.IsMatchState(sid) {
+				// Every skipped self-loop re-enters a match-tagged state
+				// (1-byte match delay): the match extends over the skipped bytes.
+				lastMatch = nextPos - 1
 			}
 			pos = nextPos
+			if pos >= end {
+				break // EOI check below, with the state unchanged
+			}
 		}
 
 		b := haystack[pos]
@@ -1591,7 +1603,12 @@ func (d *DFA) tryDetectAccelerationWithCache(state *State, cache *DFACache) {
 
 	var exitBytes []byte
 	if cache != nil && cache.stride > 0 {
-		exitBytes = DetectAccelerationFromFlat(state.ID(), cache.flatTrans, cache.stride, d.byteClasses)
+		// Exact detection (see detectAccelExact): the complete row must be known
+		// and every byte other than the exit bytes must loop back to the state
+		// itself. Rows are also filled by search loops that never run the detection
+		// (SearchAtAnchored, the reverse searches), so a well-filled row says
+		// nothing about the state unless all of it is looked at.
+		exitBytes = detectAccelExact(state.ID(), cache.flatTrans, cache.stride, d.byteClasses)
 	}
 	if len(exitBytes) > 0 {
 		state.SetAccelBytes(exitBytes)
